@@ -194,6 +194,11 @@ def param(draw):
     lo = draw(st.floats(-1, 1, allow_nan=False)) * draw(scale)
     if draw(st.booleans()):
         lo = float(np.round(lo, draw(st.integers(0, 6))))
+    if draw(st.integers(0, 5)) == 0:   # an all-integer parameter
+        lo = float(draw(st.integers(-1000, 1000)))
+        p = float(draw(st.sampled_from([1, 2, 5, 10])))
+        m = draw(st.integers(2, 3000))
+        return lo, lo + m * p + draw(st.sampled_from([0.0, 0.0, 1.0])) * (p > 1), p
     p = draw(st.sampled_from([1e-6, 1e-4, 0.001, 0.01, 0.05, 0.1, 0.25, 0.3, 0.5, 1.0, 2.0, 3.0, 7.0, 100.0]))
     if draw(st.booleans()):
         p = p * draw(st.floats(0.5, 1.5, allow_nan=False))
@@ -240,6 +245,10 @@ def random_specs(draw):
         elif kd == "notsize2":
             bounds = bounds + [list(bounds[0])] if draw(st.booleans()) else bounds[:1]
     as_array = draw(st.booleans()) and rectangular(bounds, prec)
+    if draw(st.integers(0, 7)) == 0:
+        # plain Python integers where the numbers are integral (users write [[0, 10]], [1])
+        bounds = [[int(v) if float(v).is_integer() and abs(v) < 1e15 else v for v in b] for b in bounds]
+        prec = [int(v) if float(v).is_integer() and abs(v) < 1e15 else v for v in prec]
     return {"sub": "random", "bounds": bounds, "precision": prec, "as_array": as_array}
 
 
